@@ -5,7 +5,7 @@ from props._cfg_common import TRUSTED, ASSUMPTIONS, TECHNIQUE
 
 PROP = "C08"
 LEVEL = "other"
-THEOREMS = {"Properties.C08": ["C08_member_oracle"]}
+THEOREMS = {"Properties.C08": ["C08_member_oracle", "C08_generate_epsilon", "C08_cyk"]}
 LEVEL_TEXT = ("Partial: a Coq theorem shows that the chart-saturation membership function is exactly derivability from the start symbol for ARBITRARY "
               "grammars and words (the specification-level model of contains, the empty word included). pyformlang's own route (normal form + CYK) is "
               "mirrored in the model and evaluated on every case, but its language preservation is only partly proved (see C09). contains/__contains__/"
